@@ -230,6 +230,7 @@ PROPS["C13"] = dict(
         H("c13::c13_set_final_refund", bounds="all states with refunded>=0 x london flag", timeout=900),
         H("c13::c13_record_refund", bounds="all states x all i64 with in-range sum"),
         H("c13::c13_sequence_4", bounds="all u64 limits x 6^4 method sequences with symbolic arguments", timeout=900),
+        H("c13::c13_sequence_6", tier="thorough", bounds="all u64 limits x 6^6 method sequences with symbolic arguments", timeout=3600, mem_gb=8),
         H("c13::c13_twin_must_fail", expect_fail=True, bounds="vacuity twin"),
     ],
 )
